@@ -608,5 +608,7 @@ def main(tier):
     inlined |= suggest.run(chk, 'C01', tier)
     from contracts import earlystop
     inlined |= earlystop.run(chk, 'C01', tier)
+    from contracts import volatile_frame
+    volatile_frame.run(chk, 'C01')
     chk.extra['inlined_real_functions'] = sorted(inlined)
     return chk.finish(min_obligations=60)
